@@ -175,7 +175,7 @@ class Kit:
             if mode == "delimited":
                 res.append(("delimited", data))
             elif isinstance(data, ExtObj) and data.kind == "bytes:frame":
-                res.append(("single", data.attrs["msg"]))
+                res.append(("delimited" if data.attrs.get("length_prefixed") else "single", data.attrs["msg"]))
             else:
                 res.append(("raw", data))
         return res
